@@ -33,6 +33,35 @@ Theorem C16_success_formats : forall (formatted : bytes -> fmt_result) content f
     run_effs (inject faults (fmt_w (formatted content))) fs0 FILE = Some out.
 Proof. exact success_formats. Qed.
 
+(* "never damages" includes "a successful rewrite loses no statement".  [tree] reads a content
+   as its list of declarations and statements (any type T; None = not a program).  The ORACLE
+   HYPOTHESIS [keeps formatted tree] - whenever parser + formatter produce a text for a content,
+   the content is a program and the text reads as the same statements - is tied on every run:
+   the original and the rewritten file are parsed the way falco fmt parses them and their
+   projected trees are compared (implrun fmttree).  Under it FILE reads as the statements of the
+   original at EVERY moment of EVERY faulted run, and a run that exits 0 leaves the formatted text
+   with all of them. *)
+Theorem C16_statements_never_lost : forall (T : Type) (tree : bytes -> option T) (formatted : bytes -> fmt_result)
+  content faults k fs0,
+  keeps formatted tree -> fs0 FILE = Some content ->
+  exists d, run_prefix k (inject faults (fmt_w (formatted content))) fs0 FILE = Some d /\ tree d = tree content.
+Proof. exact @statements_never_lost. Qed.
+
+Theorem C16_success_keeps_statements : forall (T : Type) (tree : bytes -> option T) (formatted : bytes -> fmt_result)
+  content faults fs0,
+  keeps formatted tree -> fs0 FILE = Some content -> exit_of faults (formatted content) = 0 ->
+  exists out, formatted content = FmtOk out /\
+    run_effs (inject faults (fmt_w (formatted content))) fs0 FILE = Some out /\
+    tree out = tree content /\ tree content <> None.
+Proof. exact @success_keeps_statements. Qed.
+
+(* without the hypothesis (a formatter that skips what it cannot print): success, fewer statements *)
+Theorem C16_skipping_formatter_refuted :
+  exists (tree : bytes -> option nat) (formatted : bytes -> fmt_result) content faults fs0,
+    fs0 FILE = Some content /\ exit_of faults (formatted content) = 0 /\
+    exists d, run_effs (inject faults (fmt_w (formatted content))) fs0 FILE = Some d /\ tree d <> tree content.
+Proof. exact skipping_formatter_refuted. Qed.
+
 (* killed at any point before the rename: original bytes *)
 Theorem C16_kill_before_rename : forall (formatted : bytes -> fmt_result) content faults k fs0,
   fs0 FILE = Some content ->
@@ -82,6 +111,9 @@ Proof. exact old_midwrite_refuted. Qed.
 Print Assumptions C16_write_atomic.
 Print Assumptions C16_failure_preserves.
 Print Assumptions C16_success_formats.
+Print Assumptions C16_statements_never_lost.
+Print Assumptions C16_success_keeps_statements.
+Print Assumptions C16_skipping_formatter_refuted.
 Print Assumptions C16_kill_before_rename.
 Print Assumptions C16_protocol_shape.
 Print Assumptions C16_links_atomic.
